@@ -885,6 +885,12 @@ done:
 							stack = append(stack, fi|descentChildFlag)
 						}
 					}
+				default:
+					// Put prev back and slide fi.
+					stack = append(stack, prev, di|descentFlag)
+					for _, v = range reflectGetWild(tv) {
+						stack = descentAddValue(stack, v, fi)
+					}
 				}
 			} else {
 				stack = append(stack, prev)
@@ -955,6 +961,7 @@ func descentAddValue(stack []any, v any, fi fragIndex) []any {
 		switch kind {
 		case reflect.Ptr, reflect.Slice, reflect.Struct, reflect.Array, reflect.Map:
 			stack = append(stack, v)
+			stack = append(stack, fi|descentChildFlag)
 		}
 	}
 	return stack
